@@ -288,6 +288,8 @@ impl AddressStore {
             if record.score < min_record.score {
                 return;
             }
+            #[cfg(feature = "verif")]
+            verif_log::EVICTED.with(|log| log.borrow_mut().push(min_record.address().clone()));
             self.addresses.remove(min_record.address());
         }
 
@@ -300,6 +302,23 @@ impl AddressStore {
         let mut records = self.addresses.values().cloned().collect::<Vec<_>>();
         records.sort_by_key(|rhs| std::cmp::Reverse(rhs.score));
         records.into_iter().take(limit).map(|record| record.address).collect()
+    }
+}
+
+/// Verification hook: per-thread log of the records evicted by [`AddressStore::insert`] (which of
+/// several minimal records goes depends on `HashMap` iteration order). Adds code only.
+#[cfg(feature = "verif")]
+pub mod verif_log {
+    use multiaddr::Multiaddr;
+    use std::cell::RefCell;
+
+    thread_local! {
+        pub(super) static EVICTED: RefCell<Vec<Multiaddr>> = const { RefCell::new(Vec::new()) };
+    }
+
+    /// The addresses evicted on this thread since the last call, in order.
+    pub fn take_evicted() -> Vec<Multiaddr> {
+        EVICTED.with(|log| std::mem::take(&mut *log.borrow_mut()))
     }
 }
 
